@@ -430,158 +430,116 @@ def wellformed_rule(ck, build, progs, counts):
 # C backends on N0 IR
 
 def c_backend_rule(ck, mod, ks, label):
+    """C permutation backends: the same per-iteration argument as for the assembly programs, on the N0 IR with the
+    path-forking symbolic evaluator (irx).  For every path from the loop head:
+      * a path that returns pins the remaining round count to a constant j (by its branch/switch conditions) and stores
+        exactly spec^j(state) into the four state words - for j = 0 the state is unchanged;
+      * a path that takes the back edge decreases the counter by J > 0, carries spec^J(state), and 4J is a multiple of the
+        key length in words (the key schedule is realigned).
+    By induction on the round count the function equals the specification for every count, whatever the loop shape."""
+    from .. import irx
     fname = "tinyjambu_permutation_%s" % ks
     f = mod.fn(fname)
     nk = int(ks) // 32
-    S = [gf2.sym_word("s%d" % i, 32) for i in range(4)]
-    K = [gf2.sym_word("k%d" % i, 32) for i in range(nk)]
     where = relpath("%s:%d" % (f.file, f.line))
+    st = ("arg", 0)
+
+    def handler(ex, p, I, callee, args):
+        raise Broken("%s calls %s: unrecognised shape" % (fname, callee))
+    ex = irx.Exec(f, handler)
+    paths = ex.run()
     if len(f.loops) != 1:
-        raise Broken("%s: expected one loop, found %d" % (fname, len(f.loops)))
-    L = f.loops[0]
-    hdr = L["header"]
-    # state phis at the header: incoming from preheader must be loads of state->s[i]
-    phis = [I for I in f.insts if I.op == "phi" and I.b == hdr]
+        raise Broken("%s: expected one loop, found %d: unrecognised shape" % (fname, len(f.loops)))
+    hdr = f.loops[0]["header"]
+    K = [gf2.sym_word(("mem", st, 16 + 4 * i), 8) + gf2.sym_word(("mem", st, 16 + 4 * i + 1), 8) + gf2.sym_word(("mem", st, 16 + 4 * i + 2), 8) + gf2.sym_word(("mem", st, 16 + 4 * i + 3), 8) for i in range(nk)]
+    S0 = [gf2.sym_word(("mem", st, 4 * i), 8) + gf2.sym_word(("mem", st, 4 * i + 1), 8) + gf2.sym_word(("mem", st, 4 * i + 2), 8) + gf2.sym_word(("mem", st, 4 * i + 3), 8) for i in range(4)]
+    # loop-carried values: which header phis hold the state words / the counter
     sphi, cphi = {}, None
-    for P in phis:
-        for inc, pb in P.get("inc"):
-            inc = tuple(inc)
-            if pb in L["blocks"]:
-                continue
-            X = f.inst(inc)
-            if X is not None and X.op == "load":
-                b, o = ir.ptr_base(f, X.ops[0])
-                if b == ("a", 0) and o in (0, 4, 8, 12) and X.get("size") == 4:
-                    sphi[P.id] = o // 4
-            if inc == ("a", 1):
-                cphi = P
-    if len(sphi) != 4 or cphi is None:
-        raise Broken("%s: cannot identify the four state phis and the round counter at the loop header: unrecognised shape" % fname)
-    byidx = {i: pid for pid, i in sphi.items()}
-
-    def leaf(v):
-        if v[0] == "i" and v[1] in sphi:
-            return S[sphi[v[1]]]
-        I = f.inst(v)
-        if I is not None and I.op == "load":
-            b, o = ir.ptr_base(f, I.ops[0])
-            if b == ("a", 0) and o is not None and o >= 16 and (o - 16) % 4 == 0 and (o - 16) // 4 < nk and I.get("size") == 4:
-                return K[(o - 16) // 4]
-            return [gf2.TOP] * 32
-        return None
-    G = gf2.Gf2(f, leaf)
-    A = aff.Aff(f)
-    cnt0 = A.value(("i", cphi.id))
-    n = 0
-    # no stores inside the loop (state lives in SSA values); key words never stored
-    for I in f.insts:
-        if I.op == "store":
-            b, o = ir.ptr_base(f, I.ops[1])
-            ok = b == ("a", 0) and o in (0, 4, 8, 12) and I.b not in L["blocks"]
-            n += 1
-            ck.ob(ok, "R-C05-EFFECT", fname, "store@c32/%s:%s" % (ks, o), "store of a state word after the loop (offset %s)" % o,
-                  "store to %s+%s %s: changes something other than the four state words" % (b, o, "inside the loop" if I.b in L["blocks"] else ""), where=relpath(I.where))
-    # each exiting edge / back edge: rounds done = cnt0 - counter value tested
-    exits_j = set()
-    for eb in L["exiting"] + L["latches"]:
-        t = f.term(eb)
-        if t.op != "br":
-            continue
-        succ = t.get("succ")
-        for s in succ:
-            is_back = s == hdr
-            is_exit = s not in L["blocks"]
-            if not (is_back or is_exit):
-                continue
-            # counter value reaching s along this edge
-            cond = ir.edge_cond(f, eb, s)
-            # determine j from the counter expression that is tested / carried
-            if is_back:
-                cv = None
-                for inc, pb in cphi.get("inc"):
-                    if pb == eb:
-                        cv = A.value(tuple(inc))
-                vals = {}
-                for i in range(4):
-                    P = f.insts[byidx[i]]
-                    for inc, pb in P.get("inc"):
-                        if pb == eb:
-                            vals[i] = G.ev(tuple(inc))
-            else:
-                if cond is None:
-                    raise Broken("%s: unconditional exit edge" % fname)
-                C = f.inst(cond[0])
-                cv = A.value(C.ops[0]) if C is not None and C.op == "icmp" else None
-                # values stored after the loop: phis in the exit block (or direct values)
-                vals = {}
-                # blocks from the exit edge down to the stores (straight chain after the loop)
-                chain = [eb, s]
-                while True:
-                    sc_ = [x for x in f.blocks[chain[-1]].succs]
-                    if len(sc_) != 1 or sc_[0] in chain:
-                        break
-                    chain.append(sc_[0])
-
-                def resolve(v):
-                    for _ in range(8):
-                        V = f.inst(v)
-                        if V is None or V.op != "phi" or V.b not in chain[1:]:
-                            return v
-                        prev = chain[chain.index(V.b) - 1]
-                        nv = None
-                        for inc, pb in V.get("inc"):
-                            if pb == prev:
-                                nv = tuple(inc)
-                        if nv is None:
-                            return v
-                        v = nv
-                    return v
-                for I in f.insts:
-                    if I.op == "store":
-                        b, o = ir.ptr_base(f, I.ops[1])
-                        if b == ("a", 0) and o in (0, 4, 8, 12):
-                            vals[o // 4] = G.ev(resolve(I.ops[0]))
-            if cv is None:
-                raise Broken("%s: cannot determine the counter on edge %s->%s" % (fname, f.blocks[eb].name, f.blocks[s].name))
-            d = cnt0.add(cv, -1)
-            j = d.constant()
-            if is_back and eb == hdr:
-                pass
-            if j is None:
-                raise Broken("%s: counter on edge is not header counter minus a constant (%s)" % (fname, A.names(d)))
-            if is_exit and j == 0 and eb == hdr:
-                # leaving from the header test before any round: state unchanged
-                exp = S
-            else:
-                exp = asmx.spec_rounds(S, K, j)
-            # branch condition semantics: exit iff counter == 0 / continue iff != 0
-            if cond is not None:
-                C = f.inst(cond[0])
-                okc = C is not None and C.op == "icmp" and C.ops[1][0] == "c" and int(C.ops[1][1]) == 0
-                pred = C.get("pred") if okc else None
-                truth = cond[1]
-                zero = (pred == "eq") == truth if pred in ("eq", "ne") else ((pred == "ugt") != truth if pred == "ugt" else None)
-                n += 1
-                ck.ob(okc and zero is not None and zero == is_exit, "R-C05-SCHED", fname, "edge-condition@c32/%s:%s->%s" % (ks, f.blocks[eb].name, f.blocks[s].name),
-                      "edge taken exactly when the round counter is %s zero" % ("" if is_exit else "not"),
-                      "loop edge %s->%s is not controlled by 'round counter %s 0'" % (f.blocks[eb].name, f.blocks[s].name, "==" if is_exit else "!="), where=relpath(t.where))
-            bad = None
+    pre = [p for p in paths if p.end[0] == "loop-entry"]
+    if len(pre) != 1:
+        raise Broken("%s: %d paths reach the loop" % (fname, len(pre)))
+    for iid in f.blocks[hdr].insts:
+        I = f.insts[iid]
+        if I.op != "phi":
+            break
+        ini = pre[0].env.get(("init", I.id))
+        if irx.is_word(ini):
             for i in range(4):
-                if vals.get(i) != exp[i]:
-                    bad = i
-                    break
-            n += 1
-            if is_exit:
-                exits_j.add(j)
-            ck.ob(bad is None and len(vals) == 4, "R-C05-STEP", fname, "%s-after-%d-rounds@c32/%s" % ("exit" if is_exit else "iteration", j, ks),
-                  "%s after %d rounds carries exactly the bit-serial specification applied %d times" % ("exit" if is_exit else "back edge", j, 128 * j),
-                  "state word %s on the %s after %d rounds differs from the specification: %s" % (bad, "exit" if is_exit else "back edge", j, _diff(vals.get(bad), exp[bad]) if bad is not None and vals.get(bad) is not None else "missing"),
-                  where=where)
-            if is_back:
-                n += 1
-                ck.ob((4 * j) % nk == 0, "R-C05-SCHED", fname, "key-period@c32/%s" % ks, "loop body of %d rounds realigns the key schedule" % j,
-                      "loop body of %d rounds does not realign the %d-word key schedule" % (j, nk), where=where)
-    return n
+                if ini == S0[i]:
+                    sphi[I.id] = i
+        elif ini == irx.Lf.s(("n", 1)):
+            cphi = I
+    n = 0
+    mem_state = len(sphi) == 0      # state kept in memory instead of SSA values
+    if (len(sphi) not in (0, 4)) or cphi is None:
+        raise Broken("%s: cannot identify the loop-carried state words / round counter: unrecognised shape" % fname)
+    ck.ob(not [e for e in pre[0].events if e[0] == "out"], "R-C05-EFFECT", fname, "no-store-before-loop@c32/%s" % ks, "nothing is stored before the loop", "stores before the loop", where=where)
+    S = [gf2.sym_word(("hdw", byidx), 32) for byidx in sorted(sphi, key=lambda k: sphi[k])] if not mem_state else None
+    rem = ("hd", cphi.id)
+    seenj = set()
+    for p in paths:
+        if p.end[0] == "loop-entry":
+            continue
+        # state at the head of this path
+        if mem_state:
+            raise Broken("%s keeps the state in memory across iterations: unsupported shape" % fname)
+        outs = {}
+        for e in p.events:
+            if e[0] == "out":
+                outs[(e[1], e[2])] = list(e[3])
+            if e[0] in ("store-unknown", "store-var", "out-sym"):
+                ck.bad("R-C05-EFFECT", fname, "store-unknown@c32/%s" % ks, "store through a pointer that is not state + constant", where=where)
+        if p.end[0] == "backedge":
+            back = p.env.get(("back", cphi.id))
+            d = back.add(irx.Lf.s(rem), -1).const() if not irx.is_word(back) else None
+            J = -d if d is not None else None
+            ck.ob(J is not None and J > 0, "R-C05-SCHED", fname, "iteration-decrement@c32/%s" % ks, "one loop iteration decreases the round counter by %s" % J,
+                  "the round counter is not decreased by a positive constant per iteration (%s)" % (back,), where=where)
+            if not J or J > 8:
+                continue
+            exp = asmx.spec_rounds(S, K, J)
+            bad = None
+            for pid, i in sphi.items():
+                got = p.env.get(("back", pid))
+                if not irx.is_word(got) or got != exp[i]:
+                    bad = (i, got)
+            ck.ob(bad is None, "R-C05-STEP", fname, "iteration@c32/%s" % ks, "one loop iteration (%d rounds) carries exactly the bit-serial specification applied %d times" % (J, 128 * J),
+                  "state word %s after one loop iteration differs from the specification: %s" % (bad[0] if bad else "", _diff(bad[1], exp[bad[0]]) if bad and irx.is_word(bad[1]) else "not a data word"), where=where)
+            ck.ob((4 * J) % nk == 0, "R-C05-SCHED", fname, "key-period@c32/%s" % ks, "loop body of %d rounds realigns the %d-word key schedule" % (J, nk),
+                  "loop body of %d rounds does not realign the %d-word key schedule: later iterations use the wrong key words" % (J, nk), where=where)
+            ck.ob(not outs, "R-C05-EFFECT", fname, "no-store-in-loop@c32/%s" % ks, "the loop body stores nothing", "the loop body stores to %s" % sorted(outs)[:3], where=where)
+            n += 4
+            continue
+        if p.end[0] != "ret":
+            raise Broken("%s: path ends by %s" % (fname, p.end[0]))
+        j = p.eqs.get(rem)
+        if j is None:
+            ck.bad("R-C05-SCHED", fname, "exit-count@c32/%s:%s" % (ks, len(seenj)),
+                   "a path leaves the function without its conditions fixing the remaining round count (conditions: %s): for some counts the wrong number of rounds runs"
+                   % [(c[0], repr(c[1]), c[2]) for c in p.conds], where=where)
+            continue
+        seenj.add(j)
+        exp = asmx.spec_rounds(S, K, j) if j else S
+        bad = None
+        for i in range(4):
+            bits = []
+            for bb in range(4):
+                cell = outs.get((st, 4 * i + bb))
+                bits.extend(cell if cell is not None else [None] * 8)
+            if bits != exp[i]:
+                # untouched memory is fine only if the expected value is the initial memory word (never the case after the loads)
+                bad = (i, bits)
+                break
+        extra = [k for k in outs if k[0] != st or not (0 <= k[1] < 16)]
+        ck.ob(bad is None, "R-C05-STEP", fname, "exit-with-%d-rounds-left@c32/%s" % (j, ks),
+              "with %d round(s) left at the loop head the function stores exactly the specification applied %d more times" % (j, 128 * j),
+              "with %d round(s) left at the loop head, state word %s stored differs from the specification after %d more rounds: %s"
+              % (j, bad[0] if bad else "", j, _diff(bad[1], exp[bad[0]]) if bad and all(x is not None for x in bad[1]) else "word not stored"), where=where)
+        ck.ob(not extra, "R-C05-EFFECT", fname, "stores-only-state@c32/%s:%d" % (ks, j), "only the four state words are stored", "stores outside the four state words: %s" % extra[:3], where=where)
+        n += 2
+    ck.ob(0 in seenj, "R-C05-SCHED", fname, "exit-classes@c32/%s" % ks, "the function can leave with 0 rounds left (exit classes: %s)" % sorted(seenj),
+          "no exit for 'no rounds left' (exit classes %s)" % sorted(seenj), where=where)
+    return n + 2
 
 
 def run(ck, build):
